@@ -430,7 +430,7 @@ func c02(c *wk.Ctx) {
 	if wk.ReplayOne(c, "c02cases", func(idx int) interface{} { return c02extra{Chunked: idx >= 5000000} }, onDeath) {
 		return
 	}
-	n := c.N(6000, 120000)
+	n := c.N(6000, 1000000)
 	type job struct {
 		start, end int
 		chunked    bool
@@ -440,7 +440,7 @@ func c02(c *wk.Ctx) {
 	for p := 0; p < parts; p++ {
 		jobs = append(jobs, job{n * p / parts, n * (p + 1) / parts, false})
 	}
-	nch := c.N(4, 16)
+	nch := c.N(4, 24)
 	for p := 0; p < nch; p++ {
 		jobs = append(jobs, job{5000000 + p, 5000000 + p + 1, true})
 	}
